@@ -10,10 +10,11 @@ import random
 import gen
 import jobs as J
 import fsmodel as F
+import dyn as D
 from gen import H, O
 from vlib import run_driver_parallel, coq_eval, unhex, cb, trace_to_coq
 
-COQ_TARGETS = ("theories/FSModel.vo", "proofs/FSProofs.vo", "theories/Static.vo", "proofs/StaticProofs.vo")
+COQ_TARGETS = ("theories/FSModel.vo", "proofs/FSProofs.vo", "theories/Static.vo", "proofs/StaticProofs.vo", "theories/Dyn.vo")
 
 RES_NO_MAGIC, RES_NO_SYM, RES_IN_ROOT = 2, 4, 16
 
@@ -33,6 +34,8 @@ def outcome(res, objs_rev):
 def run(ck):
     rng = random.Random(ck.seed)
     thorough = ck.tier == "thorough"
+    import model as M
+    ps = M.sysctl_ps()
     ntrees = 300 if thorough else 40
     per = 8 if thorough else 6
     jobs, meta = [], {}
@@ -124,6 +127,7 @@ def run(ck):
     samples = []
     cases = []
     kcases = []
+    xcases = []
     for base, case in meta.items():
         rk = res["none"]
         re_ = res["openat2"]
@@ -155,6 +159,16 @@ def run(ck):
             stats["outcomes"].get(str(o_raw[0]) + (":" + str(o_raw[1]) if o_raw[0] == "err" else ""), 0) + 1
         desc = {"tree": J.describe({"op": {"k": "x"}, "tree": case["tree"]})["tree"], "path": case["path"], "nofollow": case["nf"],
                 "no_symlinks": case["nosym"], "raw_openat2": o_raw}
+        # tie T3: the model PROGRAM (walk, Rc bookkeeping, every check_current through the procfs model) executed on the static
+        # kernel model from the same tree, for both backends, and for readlink: same outcome, same object
+        if rng.random() < (0.7 if thorough else 0.35):
+            D.collect_exec(xcases, case["tree"], byid_jobs[case["lib"]], libk, True, ps, dict(desc, backend="openat2"))
+            D.collect_exec(xcases, case["tree"], byid_jobs[case["lib"]], libe, False, ps, dict(desc, backend="emulated"))
+            rl_k, rl_e = rk.get(case["readlink"]), re_.get(case["readlink"])
+            if rl_k:
+                D.collect_exec(xcases, case["tree"], byid_jobs[case["readlink"]], rl_k, True, ps, dict(desc, backend="openat2", op="readlink"))
+            if rl_e:
+                D.collect_exec(xcases, case["tree"], byid_jobs[case["readlink"]], rl_e, False, ps, dict(desc, backend="emulated", op="readlink"))
         if o_k != o_raw:
             ck.violation("C01: the openat2 backend and the kernel's own RESOLVE_IN_ROOT resolution disagree", dict(desc, library=o_k))
         stats["lib_vs_kernel"] += 1
@@ -280,6 +294,7 @@ def run(ck):
                 evs = [e for e in tr if e["c"] != "fcntl" or e.get("cmd") != 1]
                 ck.violation("T2': the static kernel model disagrees with the answer the running kernel gave to a call of the emulated resolver",
                              dict(desc, call_index=got[0] - 1, around=evs[max(0, got[0] - 3):got[0] + 1]), False)
+        D.evaluate_exec(ck, xcases, stats, coq_eval, "c01x")
     else:
         for cid, term, o_raw, o_e, idmap, desc, emu_differs, open_pending in cases:
             if emu_differs:
@@ -298,6 +313,8 @@ def run(ck):
         "static_kernel_traces_validated": stats.get("static_traces", 0), "of_which_procfs_reads": stats.get("procfs_traces", 0), "static_kernel_calls_compared": stats.get("static_calls", 0),
         "traces_validated_against_impl": stats["kernel_vs_model"] + stats["emu_vs_model"] + stats.get("static_traces", 0),
         "disagreements_checked": 0,
+        "model_executions_compared_with_the_library": stats.get("exec_runs", 0), "model_executions_agreeing": stats.get("exec_agree", 0),
+        "model_executions_leaving_the_model": stats.get("exec_left_model", 0),
     }
     assumptions = ["the tree is static during each lookup (C02 covers attackers)", "no DAC/MAC permission checks are modelled (the harness runs as root)",
                    "fs.protected_symlinks is 0 during this check (C15 covers it)"]
